@@ -197,7 +197,11 @@ def roll_rules(chk):
                            derived="part lengths %s (sum of pads %r)" % (lens, tot), loc=cc[0].loc)
                 edge = [("sel" in "".join(p.tags)) for p in parts]
         ss = [e for e in r.events("store-shape", q)]
-        okss = all(e.target_shape == e.value_shape for e in ss) and bool(ss)
+        # a scalar stored into a slice is a broadcast fill; a value whose shape was not derived says nothing
+        def _fits(e):
+            return e.value_shape == () or e.value_shape is None or e.target_shape is None or e.target_shape == e.value_shape
+        okss = all(_fits(e) for e in ss) and bool(ss)
+        unk_ss = any(e.value_shape is None or e.target_shape is None for e in ss)
         if not ss:
             # the zero-led running sum assembled in one piece: np.concatenate([[0.0], np.cumsum(extended)])
             zl = [e for e in cc_all if e not in cc and e.args and e.args[0].items is not None and len(e.args[0].items) == 2 and
@@ -205,9 +209,15 @@ def roll_rules(chk):
                   repr(r.I.api.as_num(e.args[0].items[0]).length()) == "1"]
             okss = len(zl) == 1
         chk.ob("R-ROLL", c + "{cumsum store}", "the cumulative sum fills csum[1:] exactly", okss,
-               derived="%s" % [(e.target_shape, e.value_shape) for e in ss], loc=ss[0].loc if ss else fi.loc())
+               derived="%s" % [(e.target_shape, e.value_shape) for e in ss], loc=ss[0].loc if ss else fi.loc(),
+               inconclusive=bool(ss) and okss and unk_ss)
     rets = [n for n in ast.walk(fi.node) if isinstance(n, ast.Return) and n.value is not None]
     p = Normaliser().poly(rets[-1].value)
+    # the running sum is whatever array is read at [steps:] and at [:-steps] (one and the same): call it csum
+    _names = set(re.findall(r"([A-Za-z_]\w*)\[steps:\]", p.canon())) & set(re.findall(r"([A-Za-z_]\w*)\[:-1\*steps\]", p.canon()))
+    if len(_names) == 1 and "csum" not in _names:
+        _nm = next(iter(_names))
+        p = p.subst_atoms(lambda a_: a_.replace(_nm + "[", "csum[") if a_.startswith(_nm + "[") else a_)
     want = (Poly.atom("csum[steps:]") - Poly.atom("csum[:-1*steps]")) * Poly.atom("steps").inverse()
     chk.ob("R-ROLL", "eqsig/fns/average.py:calc_roll_av_vals{mean}", "result = (csum[steps:] - csum[:-steps]) / steps: lag and divisor are the same steps",
            p == want, derived=p.canon(), loc=fi.loc(rets[-1]), stmt=norm_stmt(rets[-1]))
@@ -224,8 +234,10 @@ def roll_rules(chk):
             before = seq[:idx] if idx is not None else []
             after = seq[idx + 1:] if idx is not None else []
             ok = idx is not None and all("values[0]" in s for s in before) and all("values[-1]" in s for s in after)
+            # pads that are bare temporaries (the value of a helper call bound by the normaliser) are not located here
+            opaque_ = any(re.fullmatch(r"[A-Za-z_]\w*", s_) and s_ != "values" for s_ in before + after)
             chk.ob("R-ROLL", "eqsig/fns/average.py:calc_roll_av_vals{edges %s}" % br_name, "leading pads replicate values[0], trailing pads values[-1]",
-                   ok, derived="%s" % seq, loc=fi.loc(cats[0]))
+                   ok, derived="%s" % seq, loc=fi.loc(cats[0]), inconclusive=(not ok and opaque_))
 
 
 def _mode_branches(fi):
@@ -545,7 +557,7 @@ def nzs_rules(chk):
     tch, tsd = site_tables(ch, "tt"), site_tables(sd, "period")
     c = "eqsig/design_spectra.py"
     chk.ob("R-NZS-SIB", c + ":c_h_factor~sd_nzs{classes}", "both functions tabulate site classes C, D, E", set(tch) == set(tsd) == {"C", "D", "E"},
-           derived="%s vs %s" % (sorted(tch), sorted(tsd)), loc=ch.loc())
+           derived="%s vs %s" % (sorted(tch), sorted(tsd)), loc=ch.loc(), inconclusive=(not tch or not tsd))       # no if/elif table located in one of them
     # the domain guard: a negative period is rejected, T = 0 and every positive period are served
     for fi_, var_ in ((ch, "tt"), (sd, "period")):
         gs = [n for n in ast.walk(fi_.node) if isinstance(n, ast.If) and isinstance(n.test, ast.Compare) and len(n.test.ops) == 1 and
